@@ -587,7 +587,7 @@ func runC18(c *report.Ctx) {
 	ruleFailedBatchNotFinished(c)
 	ruleSoleWriter(c)
 	_ = sort.Strings
-	ruleNoMemoryTipUnderUpdate(c)
+	ruleNoMemoryTipUnderUpdate(c, true)
 	ruleImportRetryOverride(c)
 	ruleQueueHeadroom(c)
 }
